@@ -318,9 +318,11 @@ Variable memo : bool.
 
 Record mst := {
   m_pairs : list (name * name * bool);            (* comparedSet *)
-  m_ffs : list (ptype * N * name * bool) }.       (* comparedFieldsAndFragmentSet *)
+  m_ffs : list (ptype * N * name * bool);         (* comparedFieldsAndFragmentSet *)
+  m_oof : bool }.                                 (* the model ran out of fuel somewhere *)
 
-Definition mst0 : mst := {| m_pairs := []; m_ffs := [] |}.
+Definition mst0 : mst := {| m_pairs := []; m_ffs := []; m_oof := false |}.
+Definition set_oof (st : mst) : mst := {| m_pairs := m_pairs st; m_ffs := m_ffs st; m_oof := true |}.
 
 Fixpoint pair_find (a b : name) (l : list (name * name * bool)) : option bool :=
   match l with
@@ -334,7 +336,7 @@ Definition pair_has (st : mst) (a b : name) (fl : bool) : bool :=
   end.
 (* newest entry first: an Add overwrites *)
 Definition pair_add (st : mst) (a b : name) (fl : bool) : mst :=
-  {| m_pairs := (a, b, fl) :: (b, a, fl) :: m_pairs st; m_ffs := m_ffs st |}.
+  {| m_pairs := (a, b, fl) :: (b, a, fl) :: m_pairs st; m_ffs := m_ffs st; m_oof := m_oof st |}.
 
 Fixpoint ff_find (p : ptype) (k : N) (g : name) (l : list (ptype * N * name * bool)) : option bool :=
   match l with
@@ -348,7 +350,7 @@ Definition ff_has (st : mst) (p : ptype) (k : N) (g : name) (fl : bool) : bool :
   | Some stored => if fl then true else negb stored
   end.
 Definition ff_add (st : mst) (p : ptype) (k : N) (g : name) (fl : bool) : mst :=
-  {| m_pairs := m_pairs st; m_ffs := (p, k, g, fl) :: m_ffs st |}.
+  {| m_pairs := m_pairs st; m_ffs := (p, k, g, fl) :: m_ffs st; m_oof := m_oof st |}.
 
 Definition fset := (ptype * list selection)%type.   (* a fieldsAndFragmentNames value *)
 Definition same_set (a b : fset) : bool :=
@@ -364,7 +366,7 @@ Definition seq {A} (step : A -> mst -> list N * mst) (l : list A) (st : mst) : l
 
 Fixpoint fc (fuel : nat) (fl : bool) (a b : fentry) (st : mst) {struct fuel} : list N * mst :=
   match fuel with
-  | O => ([], st)
+  | O => ([], set_oof st)
   | Datatypes.S f =>
     let ex := fl || excl a b in
     if negb (base_ok ex a b) then ([fe_id a], st)
@@ -375,7 +377,7 @@ Fixpoint fc (fuel : nat) (fl : bool) (a b : fentry) (st : mst) {struct fuel} : l
   end
 with between (fuel : nat) (fl : bool) (l1 l2 : list fentry) (st : mst) {struct fuel} : list N * mst :=
   match fuel with
-  | O => ([], st)
+  | O => ([], set_oof st)
   | Datatypes.S f =>
     seq (fun k =>
       seq (fun a =>
@@ -383,7 +385,7 @@ with between (fuel : nat) (fl : bool) (l1 l2 : list fentry) (st : mst) {struct f
   end
 with subsets (fuel : nat) (fl : bool) (s1 s2 : fset) (st : mst) {struct fuel} : list N * mst :=
   match fuel with
-  | O => ([], st)
+  | O => ([], set_oof st)
   | Datatypes.S f =>
     let g1 := dspreads (snd s1) in
     let g2 := dspreads (snd s2) in
@@ -395,7 +397,7 @@ with subsets (fuel : nat) (fl : bool) (s1 s2 : fset) (st : mst) {struct fuel} : 
   end
 with ffrag (fuel : nat) (fl : bool) (s : fset) (g : name) (st : mst) {struct fuel} : list N * mst :=
   match fuel with
-  | O => ([], st)
+  | O => ([], set_oof st)
   | Datatypes.S f =>
     if memo && ff_has st (fst s) (first_id (snd s)) g fl then ([], st)
     else
@@ -413,7 +415,7 @@ with ffrag (fuel : nat) (fl : bool) (s : fset) (g : name) (st : mst) {struct fue
   end
 with frfr (fuel : nat) (fl : bool) (g1 g2 : name) (st : mst) {struct fuel} : list N * mst :=
   match fuel with
-  | O => ([], st)
+  | O => ([], set_oof st)
   | Datatypes.S f =>
     match frag g1, frag g2 with
     | Some f1, Some f2 =>
@@ -461,5 +463,8 @@ Definition within_set (fuel : nat) (s : fset) (st : mst) : list N * mst :=
 (* the rule over the whole document: first nodes of the reported errors *)
 Definition run_overlap (fuel : nat) : list N :=
   fst (seq (within_set fuel) all_sets mst0).
+(* did the run stay within its fuel? (OutOfFuel is never a normal-looking result) *)
+Definition run_complete (fuel : nat) : bool :=
+  negb (m_oof (snd (seq (within_set fuel) all_sets mst0))).
 
 End Overlap.
